@@ -604,7 +604,7 @@ const static unsigned char pstm_s_rmap[64] =
 int32_t pstm_read_radix(psPool_t *pool, pstm_int *a,
     const char *buf, psSize_t len, uint8_t radix)
 {
-    int32_t y;
+    int32_t y, rc;
     uint8_t neg;
     unsigned char ch;
 
@@ -652,8 +652,16 @@ int32_t pstm_read_radix(psPool_t *pool, pstm_int *a,
          */
         if (y < radix)
         {
-            pstm_mul_d(a, (pstm_digit) radix, a);
-            pstm_add_d(pool, a, (pstm_digit) y, a);
+            /* Both steps can fail (allocation): a silently wrong value
+               here would be used as a curve parameter. */
+            if ((rc = pstm_mul_d(a, (pstm_digit) radix, a)) != PSTM_OKAY)
+            {
+                return rc;
+            }
+            if ((rc = pstm_add_d(pool, a, (pstm_digit) y, a)) != PSTM_OKAY)
+            {
+                return rc;
+            }
         }
         else
         {
